@@ -141,6 +141,21 @@ class NodePrintVisitor(xtuml.NodePrintVisitor):
                                node.position.start_column)
 
 
+def divide(lhs, rhs):
+    '''
+    Divide two values. As in other OAL execution environments, dividing an 
+    integer by an integer yields an integer (truncated towards zero).
+    '''
+    is_int = lambda value: isinstance(value, int) and not isinstance(value, bool)
+    if is_int(lhs) and is_int(rhs):
+        quotient = abs(lhs) // abs(rhs)
+        if (lhs < 0) != (rhs < 0):
+            quotient = -quotient
+        return quotient
+    
+    return lhs / rhs
+
+
 class ActionWalker(xtuml.Walker):
     domain = None
     return_value = None
@@ -373,7 +388,7 @@ class ActionWalker(xtuml.Walker):
             '+':   lambda lhs, rhs: (lhs + rhs),
             '-':   lambda lhs, rhs: (lhs - rhs),
             '*':   lambda lhs, rhs: (lhs * rhs),
-            '/':   lambda lhs, rhs: (lhs / rhs),
+            '/':   divide,
             '%':   lambda lhs, rhs: (lhs % rhs),
             '<':   lambda lhs, rhs: (lhs < rhs),
             '<=':  lambda lhs, rhs: (lhs <= rhs),
